@@ -118,7 +118,7 @@ pub fn run(ctx: &Ctx) {
         ctx.set_exhaustive(false);
         ctx.note("byte domain and word unary domain exhaustive; word binary domain = lattice^2 + generated pairs");
     }
-    let cases = ctx.tier.pick(60_000u32, 600_000u32);
+    let cases = ctx.tier.pick(400_000u32, 4_000_000u32);
     for f in bin_fns().into_iter().filter(|f| f.w == 16) {
         let op = match f.kind {
             Kind::Bin(op) => op,
